@@ -81,6 +81,9 @@ func (e *Engine) Exec(sql string) (r Result) {
 	defer func() {
 		if x := recover(); x != nil {
 			r = Result{Res: "panic:" + short(fmt.Sprint(x))}
+			if os.Getenv("VERIF_STACK") != "" {
+				fmt.Fprintf(os.Stderr, "PANIC in Exec(%s): %v\n%s\n", sql, x, debug.Stack())
+			}
 		}
 	}()
 	err, rows := e.DB.ExecuteSQLRetValues(sql)
